@@ -35,6 +35,10 @@ type docLine struct {
 }
 
 // representative values per placeholder (by the field the action reads)
+// decimalIsPlain is set when the template function `decimal` of the generator was found to format
+// with strconv.FormatFloat(…, 'f', …).
+var decimalIsPlain bool
+
 func placeholderValues(action string) []string {
 	switch {
 	case strings.Contains(action, ".Enum"):
@@ -46,7 +50,12 @@ func placeholderValues(action string) []string {
 	case strings.Contains(action, ".SwaggerFormat"):
 		return []string{"date"}
 	case strings.Contains(action, ".Maximum"), strings.Contains(action, ".Minimum"), strings.Contains(action, ".MultipleOf"):
-		return []string{"10", "1.5"}
+		if strings.HasPrefix(strings.TrimSpace(action), "decimal ") && decimalIsPlain {
+			// generator.decimal = strconv.FormatFloat(v, 'f', -1, 64) (checked by C18.R1.vocabulary › decimal): never an exponent
+			return []string{"10", "1.5", "-1.5", "1000000", "0.00000025"}
+		}
+		// a *float64 is printed with %v = %g: plain or exponent notation, signed
+		return []string{"10", "1.5", "-1.5", "1e+06", "2.5e-07"}
 	case strings.Contains(action, "Length"), strings.Contains(action, "Items"), strings.Contains(action, "Properties"):
 		return []string{"5"}
 	}
@@ -227,6 +236,19 @@ func checkC18(c *Ctx) {
 	c.Rule("C18.R1.vocabulary", "each emitted validation doc line is matched first by the scanner tagger of its own keyword, capturing the value; emitted swagger: annotations are accepted by the classifier", 14)
 	if len(schemaTaggers) < 10 {
 		c.Unk("C18.R1.vocabulary", "schema taggers", "", fmt.Sprintf("only %d schema taggers with resolvable regexps", len(schemaTaggers)))
+	}
+	decimalIsPlain = false
+	if fd := load.FuncDecl(gen, "decimal"); fd != nil {
+		ast.Inspect(fd.Body, func(n ast.Node) bool {
+			if call, ok := n.(*ast.CallExpr); ok && len(call.Args) == 4 {
+				if fn := goan.Callee(gen.TypesInfo, call); fn != nil && goan.CalleeName(fn) == "strconv.FormatFloat" {
+					if v := goan.ConstVal(gen.TypesInfo, call.Args[1]); v != nil && v.String() == "102" { // 'f'
+						decimalIsPlain = true
+					}
+				}
+			}
+			return true
+		})
 	}
 	for _, def := range []string{"propertyValidationDocString", "docstring"} {
 		t := ev.F.Trees[def]
